@@ -122,6 +122,16 @@ fn exempt(nonneg_only: bool, a: usize, b: usize) -> bool {
 }
 
 /// Runs on the CALLING thread — call it on a fresh one.
+///
+/// Criterion (relative, so that an ARITHMETIC defect cannot raise a C19
+/// alarm): a family is flagged for a pair of modes only if it fails to
+/// separate them although some other family of the same sign domain does.
+/// A defect in the shared rounding kernel (say a wrong tie rule that makes
+/// two modes coincide) coarsens every family alike and flags nothing; an
+/// operation that ignores or latches the thread's mode is coarser than its
+/// siblings and is flagged.  Floor: taken over all families, the eight modes
+/// must still fall into at least four classes — otherwise `set_default` has
+/// (almost) no effect on arithmetic at all.
 fn run_on_this_thread(only: Option<&str>) -> L2Report {
     let mut failures = Vec::new();
     let first = mode_index(RoundingMode::default());
@@ -151,16 +161,9 @@ fn run_on_this_thread(only: Option<&str>) -> L2Report {
     }
     let fams = families();
     let mut witness_evals = 0;
-    let mut pairs = 0;
     let mut sample = String::new();
-    let mut n_fams = 0;
+    let mut all_rows: Vec<Vec<Vec<Outcome>>> = Vec::new();
     for f in &fams {
-        if let Some(o) = only {
-            if f.name != o {
-                continue;
-            }
-        }
-        n_fams += 1;
         let mut rows: Vec<Vec<Outcome>> = Vec::new();
         // two passes in different mode orders: a "first mode seen" latch would
         // make the passes disagree
@@ -173,7 +176,7 @@ fn run_on_this_thread(only: Option<&str>) -> L2Report {
             RoundingMode::set_default(MODES[m]);
             let again: Vec<Outcome> = f.ops.iter().map(exec_plain).collect();
             witness_evals += f.ops.len();
-            if again != rows[m] {
+            if again != rows[m] && only.map_or(true, |o| o == f.name) {
                 failures.push(L2Failure {
                     kind: "unstable".into(),
                     family: f.name.clone(),
@@ -184,29 +187,6 @@ fn run_on_this_thread(only: Option<&str>) -> L2Report {
                 });
             }
         }
-        for a in 0..8usize {
-            for b in (a + 1)..8usize {
-                if exempt(f.nonneg_only, a, b) {
-                    continue;
-                }
-                if rows[a] == rows[b] {
-                    failures.push(L2Failure {
-                        kind: "insensitive".into(),
-                        family: f.name.clone(),
-                        detail: format!(
-                            "{}={}: the operation gives identical results on all {} witnesses under both modes; e.g. {} -> {}",
-                            MODE_NAMES[a],
-                            MODE_NAMES[b],
-                            f.ops.len(),
-                            f.ops[0].to_text(),
-                            rows[a][0].show()
-                        ),
-                    });
-                } else {
-                    pairs += 1;
-                }
-            }
-        }
         if sample.is_empty() {
             sample = format!(
                 "{}: {} under HalfEven -> {}, under Up -> {}",
@@ -215,6 +195,80 @@ fn run_on_this_thread(only: Option<&str>) -> L2Report {
                 rows[HALF_EVEN as usize][0].show(),
                 rows[7][0].show()
             );
+        }
+        all_rows.push(rows);
+    }
+    // which pairs does ANY family of a sign domain separate?
+    let mut sep = [[[false; 8]; 8]; 2];
+    for (f, rows) in fams.iter().zip(all_rows.iter()) {
+        let d = f.nonneg_only as usize;
+        for a in 0..8usize {
+            for b in (a + 1)..8usize {
+                if rows[a] != rows[b] {
+                    sep[d][a][b] = true;
+                }
+            }
+        }
+    }
+    // floor: classes of the join over the full-sign families
+    let mut class_of = [usize::MAX; 8];
+    let mut n_classes = 0;
+    for a in 0..8usize {
+        if class_of[a] == usize::MAX {
+            class_of[a] = n_classes;
+            for b in (a + 1)..8usize {
+                if !sep[0][a][b] && class_of[b] == usize::MAX {
+                    class_of[b] = n_classes;
+                }
+            }
+            n_classes += 1;
+        }
+    }
+    if n_classes < 4 {
+        failures.push(L2Failure {
+            kind: "no-effect".into(),
+            family: "default".into(),
+            detail: format!(
+                "over all {} operation families the eight modes fall into only {} class(es): \
+                 set_default has (almost) no effect on arithmetic",
+                fams.len(),
+                n_classes
+            ),
+        });
+    }
+    let mut pairs = 0;
+    let mut n_fams = 0;
+    for (f, rows) in fams.iter().zip(all_rows.iter()) {
+        if let Some(o) = only {
+            if f.name != o {
+                continue;
+            }
+        }
+        n_fams += 1;
+        let d = f.nonneg_only as usize;
+        for a in 0..8usize {
+            for b in (a + 1)..8usize {
+                if exempt(f.nonneg_only, a, b) {
+                    continue;
+                }
+                if rows[a] != rows[b] {
+                    pairs += 1;
+                } else if sep[d][a][b] {
+                    failures.push(L2Failure {
+                        kind: "insensitive".into(),
+                        family: f.name.clone(),
+                        detail: format!(
+                            "{}={}: identical results on all {} witnesses under both modes (e.g. {} -> {}), \
+                             although sibling operations tell these modes apart",
+                            MODE_NAMES[a],
+                            MODE_NAMES[b],
+                            f.ops.len(),
+                            f.ops[0].to_text(),
+                            rows[a][0].show()
+                        ),
+                    });
+                }
+            }
         }
     }
     L2Report { families: n_fams, witness_evals, pairs_separated: pairs, failures, sample }
